@@ -286,14 +286,15 @@ def check_barrier_part(spec, excl, cut, order, before, picks, ts_above, rep, win
     return None
 
 
-def pred_select(spec, excl, size, scheme, fixed, bc, ts_above=True) -> tuple | None:
-    """every clause of C17 on one call of select_batch (+ the selector itself)"""
+def pred_select(spec, excl, size, scheme, fixed, bc, ts_above=True, excl_obj=None) -> tuple | None:
+    """every clause of C17 on one call of select_batch (+ the selector itself); `excl_obj` is the list object
+    handed to the call (a caller may keep one exclusion list and reuse it), `excl` what it is meant to hold"""
     from topsearch.analysis import batch_selection as bs, minima_properties as mp
     E, n, ex = spec["E"], len(spec["E"]), set(excl)
     k = build(spec)
     rep = {"pred": "select", "spec": spec, "excl": excl, "size": size, "scheme": scheme, "fixed": fixed,
            "bc": bc, "ts_above": ts_above}
-    idx, pts = bs.select_batch(k, size, scheme, fixed, bc, list(excl))
+    idx, pts = bs.select_batch(k, size, scheme, fixed, bc, list(excl) if excl_obj is None else excl_obj)
     idx = [int(x) for x in idx]
     # observe (from outside) the scan window the selector hands to disconnected_height
     seen = []
@@ -382,8 +383,32 @@ CORPUS = [
 ]
 
 
+def pred_sequence(spec, excl, calls, ts_above=True) -> tuple | None:
+    """several batches requested from one network with the caller's one exclusion list object: each call is
+    judged against what that list was given to hold"""
+    shared = list(excl)
+    for n_call, (size, scheme, fixed, bc) in enumerate(calls):
+        r = pred_select(spec, excl, size, scheme, fixed, bc, ts_above, excl_obj=shared)
+        if r:
+            rep = {"pred": "sequence", "spec": spec, "excl": excl, "calls": [list(c) for c in calls[:n_call + 1]],
+                   "ts_above": ts_above}
+            return (r[0], f"call {n_call + 1} of a series sharing one exclusion list: " + r[1], rep)
+    return None
+
+
 def predicates(ctx: Ctx) -> None:
     rng = ctx.rng
+    for it in range(ctx.scale(25, 150) * (4 if getattr(ctx, "deep_search", False) else 1)):
+        spec = c18.float_spec(rng, nmax=9)
+        nn = len(spec["E"])
+        excl = random_excl(rng, nn)
+        calls = [(rng.choice([1, 2, 3, nn]), rng.choice(SCHEMES), rng.random() < 0.7,
+                  rng.choice([0.0, 0.1, 0.3, 1.0])) for _ in range(3)]
+        r = pred_sequence(spec, excl, calls)
+        ctx.stats.case({"stream": "predicate-shared-exclusions", "n": nn, "calls": len(calls)}, True)
+        if r:
+            ctx.fail(*r)
+            break
     for d in CORPUS:
         r = pred_select(d["spec"], d["excl"], d["size"], d["scheme"], d["fixed"], d["bc"])
         ctx.stats.case({"stream": "predicate-corpus", **{q: d[q] for q in ("scheme", "size", "fixed")}}, True)
@@ -414,6 +439,11 @@ def predicates(ctx: Ctx) -> None:
 
 
 def replay(ctx: Ctx, data: dict) -> bool:
+    if data.get("pred") == "sequence":
+        r = pred_sequence(data["spec"], data["excl"], [tuple(c) for c in data["calls"]], data.get("ts_above", True))
+        if r:
+            print(f"  {r[0]}: {r[1]}")
+        return r is None
     if data.get("pred") != "select":
         print("  (not a property-failure replay; run ./check C17)")
         return True
